@@ -232,10 +232,15 @@ type CardCase struct {
 	// Kinds: for the child "deviate", the kind of each copy (1 add, 2 replace, 3 delete, else not-supported): what the
 	// tables say about "deviate" holds for every kind and every mixture of kinds
 	Kinds []int `json:"kinds,omitempty"`
+	// PKind: for the parent "deviate", its kind (0 not-supported, 1 add, 2 replace, 3 delete)
+	PKind int `json:"pkind,omitempty"`
 }
 
 func buildCard(c CardCase) (*S, int) {
 	p := sample(c.Parent, 9, "")
+	if c.Parent == "deviate" {
+		p.Arg = deviateKinds[c.PKind%4]
+	}
 	// remove default occurrences of the child, then add M copies
 	var kids []*S
 	for _, k := range p.Kids {
@@ -271,8 +276,8 @@ func buildCard(c CardCase) (*S, int) {
 }
 
 func checkCard(c CardCase) fw.Outcome {
-	out := fw.Outcome{NonTrivial: true, Key: fmt.Sprintf("%s/%s/%d%v", c.Parent, c.Child, c.M, c.Kinds)}
-	want := cardVerdict(c.Parent, c.Child, c.M)
+	out := fw.Outcome{NonTrivial: true, Key: fmt.Sprintf("%s/%s/%d%v/%d", c.Parent, c.Child, c.M, c.Kinds, c.PKind)}
+	want := cardVerdict(c.Parent, c.PKind, c.Child, c.M)
 	if want < 0 {
 		out.Skip = true
 		return out
@@ -336,7 +341,8 @@ func checkCard(c CardCase) fw.Outcome {
 var cardProp = fw.Register(&fw.Prop[CardCase]{
 	ID: "C09", Name: "card",
 	Rule: "ALL triples (parent keyword, child keyword, multiplicity 0/1/2) over the RFC 6020 keywords: the parent is built with every other required substatement once, the child added m times " +
-		"with a valid argument, plus a prefixed extension under every parent; oracle: the RFC 6020 substatement tables transcribed by hand (harness/c09/rfc6020.go); a rejection must give the " +
+		"with a valid argument, plus a prefixed extension under every parent; refine and the four kinds of deviate as parents too (what they may hold depends on the target, which is the " +
+		"compiler's matter, but a substatement their tables give 0..1 may not be written twice); oracle: the RFC 6020 substatement tables transcribed by hand (harness/c09/rfc6020.go); a rejection must give the " +
 		"location of the child or parent and name one of them; every triple is a distinct non-trivial cell",
 	Gen:   func(t *rapid.T) CardCase { return CardCase{} },
 	Check: checkCard,
@@ -355,6 +361,12 @@ func TestCardinalityTriples(t *testing.T) {
 			for m := 0; m <= 2; m++ {
 				fw.Eval(cardProp, "", CardCase{Parent: p, Child: c, M: m})
 				n++
+				if p == "deviate" {
+					for k := 1; k < 4; k++ {
+						fw.Eval(cardProp, "", CardCase{Parent: p, Child: c, M: m, PKind: k})
+						n++
+					}
+				}
 			}
 			if c == "deviate" {
 				// every kind once, twice, and every ordered pair of kinds; three of a kind
